@@ -9,7 +9,9 @@ import ZvbiModel.Props.C02Interleave
 * `page_roundtrip_serial_fetch`: ... and when that header opens a text page (any magazine), the state after it: look-ups
   of P return the stored entry, exactly one TTX_PAGE event for P.
 * `stored_page_survives_put`: storing a page with another page number does not change what a look-up finds
-  (the cache half of "every page of the cycle stays fetchable").
+  (the cache half of "every page of the cycle stays fetchable"); both source shapes of `_vbi_cache_put_page`.
+* `single_version_put_replaces_all`: the repaired shape (fixes/C10-put-replaces-all-versions.diff) under a single-version
+  key leaves one version of the page number.
 * `page_roundtrip_chain_full` (OPEN, def): a whole cycle of pages of one magazine from a fresh decoder.
 -/
 namespace Zvbi.Props.C02Serial
@@ -124,13 +126,43 @@ example : (cacheGet (run (init.enable true) [hdrPkt 1 0x23 0x10 blank32, rowPkt 
         hdrPkt 2 0x50 0x10 blank32]).2 = [(0x123, 0)] := by decide +kernel
 
 /-- **stored_page_survives_put**: `_vbi_cache_put_page` of a page with ANOTHER page number (whatever it replaces or
-moves in the hash chain) does not change what a look-up of `pgno` - exact key or wildcard - finds. -/
-theorem stored_page_survives_put (c c' : List Page) (pt : Nat) (p : Page) (pgno key mask : Nat) (hne : p.pgno ≠ pgno)
-    (h : cachePut c pt p = some c') : c'.find? (keyMatch pgno key mask) = c.find? (keyMatch pgno key mask) :=
-  cachePut_find_other c pt p pgno key mask hne c' h
+moves in the hash chain) does not change what a look-up of `pgno` - exact key or wildcard - finds.  BOTH source shapes
+of `_vbi_cache_put_page` (`cachePutF fix`: as found with finding F17, and with fixes/C10-put-replaces-all-versions.diff -
+the versions that repair removes in addition all have the page number stored); `cachePut` is the shape of the current
+source (`Zvbi.Gen.Cache.putReplacesAllVersions`, read from src/cache.c by translate/gen_cache.py). -/
+theorem stored_page_survives_put (c c' : List Page) (pt : Nat) (p : Page) (pgno key mask : Nat) (hne : p.pgno ≠ pgno) :
+    (∀ fix, cachePutF fix c pt p = some c' → c'.find? (keyMatch pgno key mask) = c.find? (keyMatch pgno key mask)) ∧
+    (cachePut c pt p = some c' → c'.find? (keyMatch pgno key mask) = c.find? (keyMatch pgno key mask)) :=
+  ⟨fun fix h => cachePutF_find_other fix c pt p pgno key mask hne c' h,
+   fun h => cachePut_find_other c pt p pgno key mask hne c' h⟩
 
-example : (cachePut [{ Page.zero with pgno := 0x123 }] 0 { Page.zero with pgno := 0x124 }).map
-    (fun c => (c.find? (keyMatch 0x123 0 0)).map (·.pgno)) = some (some 0x123) := by decide +kernel
+example (fix : Bool) : (cachePutF fix [{ Page.zero with pgno := 0x123 }] 0 { Page.zero with pgno := 0x124 }).map
+    (fun c => (c.find? (keyMatch 0x123 0 0)).map (·.pgno)) = some (some 0x123) := by cases fix <;> decide +kernel
+
+/-- **single_version_put_replaces_all** (REPAIRED shape of `_vbi_cache_put_page`,
+fixes/C10-put-replaces-all-versions.diff): a store whose key class is "one version" (`putKey` chooses `subno_mask = 0`:
+sub-code 0, a clock-time sub-code, an invalid one) leaves exactly ONE cached version of the page number - the page just
+stored, at the head of the chain - and the pages of all other page numbers in their old order.  As found (F17) the
+versions stored with a sub-page sub-code stay (second half: the witness). -/
+theorem single_version_put_replaces_all (c c' : List Page) (pt : Nat) (p : Page) (key : Nat)
+    (hk : putKey pt p.pgno p.subno = (key, 0)) (h : cachePutF true c pt p = some c') :
+    c' = ({ p.truncate with subno := key } : Page) :: c.filter (fun q => q.pgno != p.pgno) ∧
+    (∀ x ∈ c'.tail, x.pgno ≠ p.pgno) := by
+  have e := cachePutF_single c pt p key hk c' h
+  refine ⟨e, ?_⟩
+  rw [e]
+  intro x hx
+  have := (List.mem_filter.1 hx).2
+  simpa using this
+
+example :
+    (cachePutF true [{ Page.zero with pgno := 0x100, subno := 1 }, { Page.zero with pgno := 0x200 },
+        { Page.zero with pgno := 0x100, subno := 2 }] 0 { Page.zero with pgno := 0x100, subno := 0x100 }).map
+      (fun c => c.map (fun q => (q.pgno, q.subno))) = some [(0x100, 0x100), (0x200, 0)] ∧
+    (cachePutF false [{ Page.zero with pgno := 0x100, subno := 1 }, { Page.zero with pgno := 0x200 },
+        { Page.zero with pgno := 0x100, subno := 2 }] 0 { Page.zero with pgno := 0x100, subno := 0x100 }).map
+      (fun c => c.map (fun q => (q.pgno, q.subno))) = some [(0x100, 0x100), (0x200, 0), (0x100, 2)] := by
+  constructor <;> decide +kernel
 
 /-- OPEN: `page_roundtrip_chain` - a whole cycle of pages `txs` of one magazine from a fresh decoder (each page
 terminated by the next page's header, the last by `fin`): every page is fetched as the `mergeRows` of its LAST
